@@ -109,6 +109,25 @@ def script_refused(rng, kinds):
     return {"members": members, "steps": steps, "both": True, "settle": 30}
 
 
+def script_dump_close(rng, kinds):
+    """Asynchronous consumers and Close: the packet dump looks at a packet some milliseconds after it was handed over (slow
+    formatter / sink); meanwhile the interceptor is closed from another goroutine.  Whenever the application's call comes
+    back, the memory is the application's again - also when it comes back BECAUSE of the Close."""
+    members = [{"k": k, "o": {"ivl": 1, "size": 64, "k": 3, "n": 1, "rate": 50_000_000, "text": rng.choice([0, 1]), "slowdump": 12}}
+               for k in kinds]
+    steps = [{"a": "bindw"}, {"a": "bindr"},
+             {"a": "bindl", "s": 1, "nack": True, "twcc": 0, "rtx": False, "fec": False},
+             {"a": "bindm", "s": 2, "nack": True, "twcc": 0, "pli": False},
+             {"a": "wrtp", "s": 1, "w": 7, "id": 1, "len": 100, "shape": 5, "fail": False},
+             {"a": "rrtp", "s": 2, "w": 8, "id": 2, "len": 100, "shape": 3, "tw": -1, "fail": False},
+             {"a": "par", "par": [
+                 {"a": "seq", "rep": 1, "seq": [{"a": "wrtp", "s": 1, "w": 9, "id": 3, "len": 300, "shape": 5, "fail": False}]},
+                 {"a": "seq", "rep": 1, "seq": [{"a": "rrtp", "s": 2, "w": 10, "id": 4, "len": 300, "shape": 3, "tw": -1, "fail": False}]},
+                 {"a": "seq", "rep": 1, "seq": [{"a": "wait", "ms": 4}, {"a": "close"}]}]},
+             {"a": "wait", "ms": 30}]
+    return {"members": members, "steps": steps, "both": True, "settle": 40}
+
+
 def script_jitter(rng, kinds):
     """The jitter buffer interceptor returns EARLIER packets: playout starts after 50 packets; then a packet is missing at the
     playout head (reads fail while later packets keep arriving and are buffered), the missing packet arrives late and
@@ -167,6 +186,8 @@ def run(ctx):
         scripts.append(script_sizes(rng, kinds))
     for kinds in (["nackresp"], ["nackresp", "flexfec"], ["pdsend", "nackresp"]):
         scripts.append(script_refused(rng, kinds))
+    for kinds in (["pdsend"], ["pdrecv"], ["pdsend", "pdrecv"], ["pdsend", "nackresp"]):
+        scripts.append(script_dump_close(rng, kinds))
     for kinds in (["jitter"], ["pdrecv", "jitter"], ["jitter", "stats"]):
         for _ in range(2 if ctx.quick else 20):
             scripts.append(script_jitter(rng, kinds))
